@@ -107,7 +107,9 @@ def r1_shapes(ck, repo):
     se2.merge_out = ["O", "O"]
     se2.class_self[ENS] = attrs
     se2.analyse(fn, fn._module, q, {"key": (), "model_idx": (), "acts": ("H", "A"), "obs": ("O",)}, {}, 0, {})
-    bad = [a for a in se2.alarms]
+    shared = [a for a in se2.alarms if a[2] == "shared-draw"]
+    ck.ob("R1-one-variance-per-output", q, "independent-noise-per-dimension", not shared, "random draws in the particle propagation", "" if not shared else "; ".join(a[3] for a in shared)[:300] + " (the member distribution is a diagonal Gaussian with independent dimensions)", loc(fn._module, fn))
+    bad = [a for a in se2.alarms if a[2] != "shared-draw"]
     ck.ob("R1-one-variance-per-output", q, "member-query-rank", not bad, f"base_distribution(hstack((obs (O,), act (A,)))...) ; alarms {[a[2] for a in bad]}",
           "" if not bad else "; ".join(a[3] for a in bad)[:300], loc(fn._module, fn))
     # the two vmaps of ts_inf
@@ -377,6 +379,7 @@ def run(ck, repo: Repo, tier: str):
 
 _E, _P, _R = "rl_blox/blox/probabilistic_ensemble.py", "rl_blox/algorithm/pets.py", "rl_blox/algorithm/pets_reward_models.py"
 MUTANTS = [
+    {"id": "c17-tsinf-scalar-noise", "file": "rl_blox/algorithm/pets.py", "rule": "R1", "edits": [("        delta_obs = dist.sample(seed=sampling_key)[0]", "        noise = jax.random.normal(sampling_key)\n        delta_obs = dist.mean()[0] + dist.stddev()[0] * noise")], "accept_error": True},
     {"id": "c17-resize-batches", "file": "rl_blox/blox/probabilistic_ensemble.py", "rule": "R4", "find": "        batched_indices = shuffled_indices.reshape(\n            model.n_ensemble, batch_size, -1\n        ).transpose([2, 0, 1])", "replace": "        batched_indices = jnp.resize(shuffled_indices, (model.n_ensemble, shuffled_indices.shape[1] // batch_size, batch_size)).transpose([1, 0, 2])"},
     {"id": "c17-base-predict-double-vmap", "file": _E, "rule": "R1", "nth": 0, "find": "        log_var_i = self._safe_log_var_i(\n            log_var_i, self.min_log_var, self.max_log_var\n        )\n        return mean_i, jnp.exp(log_var_i)", "replace": "        log_var_i = self._safe_log_var(\n            log_var_i, self.min_log_var, self.max_log_var\n        )\n        return mean_i, jnp.exp(log_var_i)"},
     {"id": "c17-tsinf-vector-query", "file": _P, "rule": "R1", "find": "            jnp.hstack((obs, act))[jnp.newaxis], model_idx", "replace": "            jnp.hstack((obs, act)), model_idx"},
